@@ -302,7 +302,7 @@ class C04(core.Check):
             pieces = [gen.content(r.choice(["random", "text"]), r.randrange(1, r.choice([30, 400, 3000])), r.random()) for _ in range(n)]
             db = r.randbytes(r.choice([0, 0, 40, 600]))
             cht = r.randrange(4)
-            akind = r.choice(["edit", "edit", "edit", "same", "unrelated", "absent", "other-dict", "other-hash", "other-comp", "superset"])
+            akind = r.choice(["edit", "edit", "edit", "same", "unrelated", "absent", "other-dict", "other-hash", "other-comp", "other-comp", "superset"])
             bp = pieces
             if akind in ("edit", "other-dict", "other-hash", "other-comp"):
                 ap = edit_pieces(r, pieces, "edit")
@@ -315,14 +315,18 @@ class C04(core.Check):
                 r.shuffle(ap)
             else:
                 ap = None
-            B = zckref.make_file(bp, comp_type=comp, dict_bytes=db, chunk_hash_type=cht, hash_type=r.randrange(4))
+            unc = r.random() < 0.3
+            if unc:
+                cht = r.choice([1, 2])
+            B = zckref.make_file(bp, comp_type=comp, dict_bytes=db, chunk_hash_type=cht, hash_type=r.randrange(4), uncomp=unc)
             if i % 11 == 10:   # empty B / single tiny chunk
                 B = zckref.make_file([] if i % 2 else [b"x"], comp_type=comp, chunk_hash_type=cht)
             A = None
             if ap is not None:
                 A = zckref.make_file(ap, comp_type=(comp if akind != "other-comp" else 2 - comp),
                                      dict_bytes=(db if akind != "other-dict" else r.randbytes(33)),
-                                     chunk_hash_type=(cht if akind != "other-hash" else (cht + 1) % 4), hash_type=r.randrange(4))
+                                     chunk_hash_type=(cht if akind != "other-hash" else ((cht % 2) + 1 if unc else (cht + 1) % 4)), hash_type=r.randrange(4),
+                                     uncomp=(unc if r.random() < 0.8 else not unc) and (cht in (1, 2) or akind == "other-hash"))
             self._add(out, r, ctx, "p%d" % i, akind, A, B)
         # library-written pairs with automatic chunking (content-defined boundaries resynchronise after an edit)
         nlib = 3 if self.quick else 30
@@ -372,5 +376,5 @@ class C04(core.Check):
             out.append({"name": name, "akind": akind, "tkind": tkind, "A": core.b64(A) if A else None, "B": core.b64(B),
                         "T": core.b64(T) if T is not None else None, "limit": r.choice([1, 2, 3, 7, 127, 255, -1]),
                         "style": r.choice([0, 0, 1, 2, 4, 8, 16, 32, 7]) | (1 if "(" in bkind else 0), "boundary": bkind,
-                        "frag": r.choice(["all", "n:16384", "rand:%d:16384" % r.randrange(1 << 20), "rand:%d:50" % r.randrange(1 << 20), "n:1" if len(B) < 30000 else "n:1000"]),
+                        "frag": r.choice(["all", "n:16384", "parts", "parts", "rand:%d:16384" % r.randrange(1 << 20), "rand:%d:50" % r.randrange(1 << 20), "n:1" if len(B) < 30000 else "n:1000"]),
                         "zh": ctx["zh"]})
